@@ -140,6 +140,9 @@ type nparams struct {
 	// redeployedTwice fixes the configuration to: the old operator had been restored from its
 	// checkpoint before and is redeployed as op0 in the same process, every neighbour answers
 	redeployedTwice bool
+	// pendingCheckpoint fixes: every neighbour answers, the old operator's process is gone, and
+	// the history starts with operator 0 compacting the shared tables away and a job checkpoint
+	pendingCheckpoint bool
 }
 
 // gcBarrierTimeout is gcBarrier that gives up when the cleanup goroutine is stuck in a
@@ -234,7 +237,7 @@ func neighbors(c *mc.Ctx) {
 	// where did the old operator go? 0: its process is gone (its objects are never collected);
 	// 1: it was redeployed as new operator 0 in the same process (its database object is
 	// dropped, and operator 0 shares the process-wide file bookkeeping with it)
-	sameProcess := p.redeployedTwice || c.Choose(2) == 1
+	sameProcess := p.redeployedTwice || (!p.pendingCheckpoint && c.Choose(2) == 1)
 	if sameProcess {
 		oldDB = nil
 	}
@@ -270,7 +273,7 @@ func neighbors(c *mc.Ctx) {
 				continue
 			}
 			mode := ansReal
-			if !p.redeployedTwice {
+			if !p.redeployedTwice && !p.pendingCheckpoint {
 				mode = c.Choose(3)
 			}
 			modes = append(modes, fmt.Sprintf("op%d sees op%d: %s", i, j, ansName[mode]))
@@ -370,7 +373,8 @@ func neighbors(c *mc.Ctx) {
 	}
 	verify("the rescale")
 
-	nact := 2*p.n + 2
+	nact := 3*p.n + 2
+	partial := make([]int, p.n) // checkpoints an operator took for job checkpoints that never completed
 	bursts := make([]int, p.n)
 	dirty := true // something happened since the last garbage collection
 	stateKey := func() string {
@@ -380,7 +384,7 @@ func neighbors(c *mc.Ctx) {
 		}
 		sort.Strings(names)
 		var sb strings.Builder
-		fmt.Fprint(&sb, modes, sameProcess, hadPrevGen, rel(fmt.Sprint(names)), jobCkpt, jobOldest, dirty, stuck, bursts)
+		fmt.Fprint(&sb, modes, sameProcess, hadPrevGen, partial, rel(fmt.Sprint(names)), jobCkpt, jobOldest, dirty, stuck, bursts)
 		for _, st := range ops {
 			for _, h := range st.retained {
 				fmt.Fprint(&sb, " ", h.id)
@@ -389,15 +393,41 @@ func neighbors(c *mc.Ctx) {
 		}
 		return sb.String()
 	}
-	for step := 0; step < p.depth; step++ {
-		if c.Fresh() && c.Seen(stateKey(), p.depth-step) {
+	var script []int
+	if p.pendingCheckpoint {
+		// fixed prefix: operator 0 rewrites its keys (compacts the shared tables away), then a job checkpoint
+		script = []int{1, 2*p.n + 1}
+	}
+	for step := 0; step < p.depth+len(script); step++ {
+		if step >= len(script) && c.Fresh() && c.Seen(stateKey(), p.depth+len(script)-step) {
 			return
 		}
-		op := c.Choose(nact + 1)
+		var op int
+		if step < len(script) {
+			op = script[step]
+		} else {
+			op = c.Choose(nact + 1)
+		}
 		switch {
 		case op == 0:
-			step = p.depth
+			step = p.depth + len(script)
 			continue
+		case op > 2*p.n+1 && op <= 3*p.n+1:
+			// operator i checkpoints for a job checkpoint that never completes (another member does
+			// not acknowledge): its database has a newer checkpoint than the one the job retains
+			i := op - 2*p.n - 2
+			st := ops[i]
+			if jobCkpt >= 4 || partial[i] >= 1 {
+				continue
+			}
+			partial[i]++
+			dirty = true
+			jobCkpt++
+			c.Op("checkpoint(op%d, job checkpoint %d never completes)", i, jobCkpt)
+			if _, err := st.db.Checkpoint(jobCkpt)(); err != nil {
+				c.Failf("operator %d checkpoint: %v", i, err)
+			}
+			verify(fmt.Sprintf("checkpoint(op%d) of an incomplete job checkpoint", i))
 		case op <= p.n: // burst on operator i: rewrites own keys, flushes, compacts
 			i := op - 1
 			st := ops[i]
@@ -431,7 +461,7 @@ func neighbors(c *mc.Ctx) {
 			}
 			verify(fmt.Sprintf("notify(op%d)", i))
 		case op == 2*p.n+1: // a job checkpoint: every operator checkpoints
-			if jobCkpt >= 3 {
+			if jobCkpt >= 4 {
 				continue
 			}
 			dirty = true
@@ -445,7 +475,7 @@ func neighbors(c *mc.Ctx) {
 				st.retained = append(st.retained, handle{jobCkpt, h, st.ref.Clone(), st.dir})
 			}
 			verify(fmt.Sprintf("jobCheckpoint(%d)", jobCkpt))
-		default:
+		case op == 3*p.n+2:
 			if stuck || !dirty {
 				continue
 			}
